@@ -61,7 +61,9 @@ GridDef ==
            <<"method", 3, "p6", FALSE>>, <<"func", 4, "p4", FALSE>>, <<"method", 4, "p4", FALSE>>,
            <<"op", 2, "op13", FALSE>>, <<"op", 2, "op6", TRUE>>, <<"op", 3, "op9", FALSE>>, <<"op", 4, "op6", FALSE>> }
     [] Grid = "thorough" ->
-         { <<"func", 2, "full42", FALSE>>, <<"method", 2, "full42", FALSE>>, <<"func", 3, "p8", FALSE>>,
+         { <<"func", 2, "full42", FALSE>>, <<"method", 2, "full42", FALSE>>,
+           <<"func", 2, "p12", FALSE>>, <<"method", 2, "p12", FALSE>>,      \* with the naming / declpos variants
+           <<"func", 3, "p8", FALSE>>,
            <<"method", 3, "p8", FALSE>>, <<"func", 4, "p5", FALSE>>, <<"method", 4, "p5", FALSE>>,
            <<"op", 2, "op13", FALSE>>, <<"op", 2, "op6", TRUE>>, <<"op", 3, "op13", FALSE>>, <<"op", 4, "op9", FALSE>> }
     [] Grid = "live" ->
@@ -89,7 +91,7 @@ StyleVecs(f, cs, lst) ==
 \* index sets of the pool with n elements, as strictly increasing sequences (= canonical order)
 IncSeqs(m, n) == { s \in [1..n -> 1..m] : \A i \in 1..(n - 1) : s[i] < s[i + 1] }
 
-Variants(f, n) == IF n # 2 THEN { <<"plain", "before">> }
+Variants(f, n, pool) == IF n # 2 \/ pool = "full42" THEN { <<"plain", "before">> }
                   ELSE { <<"plain", "before">>, <<"under", "before">>, <<"plain", "after">> }
                        \cup (IF f = "method" THEN { <<"recvunder", "before">> } ELSE {})
 
@@ -122,7 +124,7 @@ Init == /\ \E g \in GridDef : LET pool == PoolByName(g[3]) IN
               \*   recvunder : only the receiver type's name contains "_" (method family)
               \* declpos: the named candidates are declared textually before / after the overload
               \* declaration that lists them (preloadFile must force-load them either way: ctx.lbinames)
-              /\ \E v \in Variants(g[1], g[2]) : naming = v[1] /\ declpos = v[2]
+              /\ \E v \in Variants(g[1], g[2], g[3]) : naming = v[1] /\ declpos = v[2]
         /\ styles \in StyleVecs(fam, cands, listing)
 
         /\ onames = <<>> /\ decls = {} /\ exov = FALSE /\ table = <<>>
